@@ -1369,6 +1369,7 @@ func main() {
 	sb.WriteString("/-- Struct types of pkg/jsonline whose objects can be shared through the API (writes to other struct types are not listed above). -/\ndef jsonlineSharedTypes : List String := " + lstrList(st) + "\n\n")
 	sb.WriteString("def castWrites : List (String × String) := " + lstrList(cwr) + "\n\n")
 	sb.WriteString("def castGlobals : List String := " + lstrList(cg) + "\n\n")
+	sb.WriteString("/-- Package-level variables of pkg/jsonline and pkg/cast whose type is a slice, map, pointer, channel, array or struct. -/\ndef refGlobals : List String := " + lstrList(append(refGlobals(jp), refGlobals(cp)...)) + "\n\n")
 	sb.WriteString("/-- Every call that receives the template's prototype row `t.empty`, per template method. -/\ndef protoUses : List (String × String) := " + lstrList(rootedCalls(jp, "template.*", "t.empty")) + "\n\n")
 	sb.WriteString("/-- What CloneRow / CloneValue do with their argument. -/\ndef cloneUses : List (String × String) := " + lstrList(append(append(rootedCalls(jp, "CloneRow", "r"), rootedCalls(jp, "CloneValue", "v")...), rootedCalls(jp, "row.IterValues", "r.l")...)) + "\n\n")
 	// constants of importer.go / exporter.go
